@@ -122,20 +122,7 @@ theorem C08_complete (cfg : Cfg) (ps0 : PS) (salt bRand : Bytes) (a : Nat)
 
 /-! ### non-vacuity: the hypotheses are satisfiable and the statement is about a non-trivial run -/
 
-/-- a transparent crypto instance: it satisfies `CryptoOK` -/
-def toyCrypto : Crypto where
-  H d := 0 :: d
-  hkdf k s i := k ++ s ++ i
-  aeadEnc k _ p := p ++ k
-  aeadDec k _ c := if c.drop (c.length - k.length) = k then some (c.take (c.length - k.length)) else none
-  sigVerify pk sg m := some (sg = pk ++ m)
-  sign m := [7] ++ m
-  uuidOf b := some b
-
-example : CryptoOK toyCrypto [7] := by
-  constructor
-  · intro k n p; simp [toyCrypto]
-  · intro m; simp [toyCrypto]
+example : CryptoOK toyCrypto [7] := toyCrypto_ok
 
 /-- a concrete complete run on a toy group, with a digest that starts with a zero byte -/
 example :
